@@ -97,3 +97,113 @@ def eval_term(e: ast.AST, env: Dict[str, Any]) -> Any:
             raise CannotEvaluate('call arguments')
         return {'min': min, 'max': max, 'int': lambda x: int(x), 'abs': abs}[e.func.id](*args)
     raise CannotEvaluate(type(e).__name__)
+
+
+# --------------------------------------------------------------------------- byte / text terms
+_BYTES_METHODS = {'decode', 'strip', 'rstrip', 'lstrip', 'find', 'rfind', 'index', 'rindex', 'partition', 'rpartition', 'split',
+                  'rsplit', 'replace', 'upper', 'lower', 'ljust', 'rjust', 'center', 'startswith', 'endswith', 'count', 'zfill',
+                  'title', 'swapcase', 'capitalize', 'join', 'isalnum', 'isdigit'}
+_STR_METHODS = _BYTES_METHODS - {'decode'} | {'encode', 'format'}
+_IDENTITY_CALLS = {'uid.UID', 'UID', 'pydicom.uid.UID', 'six.text_type', 'six.binary_type', 'six.ensure_str', 'six.ensure_binary',
+                   'six.ensure_text'}
+
+
+def eval_value(e: ast.AST, env: Dict[str, Any]) -> Any:
+    """Constant folding of a conversion term over bytes / str / int constants (whitelisted pure builtins only).
+    Exceptions a conversion would raise on that constant (UnicodeError, ValueError, IndexError) propagate."""
+    if isinstance(e, ast.Expression):
+        return eval_value(e.body, env)
+    if isinstance(e, ast.Constant):
+        return e.value
+    if isinstance(e, (ast.Name, ast.Attribute)):
+        k = ast.unparse(e)
+        if k in env:
+            return env[k]
+        if isinstance(e, ast.Name) and e.id in ('True', 'False', 'None'):
+            return {'True': True, 'False': False, 'None': None}[e.id]
+        raise CannotEvaluate(k)
+    if isinstance(e, (ast.Tuple, ast.List)):
+        vals = [eval_value(x, env) for x in e.elts]
+        return tuple(vals) if isinstance(e, ast.Tuple) else vals
+    if isinstance(e, ast.BinOp):
+        a, b = eval_value(e.left, env), eval_value(e.right, env)
+        if isinstance(e.op, ast.Add) and type(a) is type(b) and isinstance(a, (bytes, str, int, tuple, list)):
+            return a + b
+        if isinstance(e.op, ast.Mult) and (isinstance(a, int) or isinstance(b, int)) and \
+                isinstance(a, (bytes, str, int)) and isinstance(b, (bytes, str, int)):
+            n = a if isinstance(a, int) else b
+            if isinstance(n, int) and abs(n) > 1 << 16 and not (isinstance(a, int) and isinstance(b, int)):
+                raise CannotEvaluate('repeat count')
+            return a * b
+        if isinstance(a, int) and isinstance(b, int):
+            return eval_term(ast.BinOp(left=ast.Constant(value=a), op=e.op, right=ast.Constant(value=b)), {})
+        raise CannotEvaluate('binary operator on %s / %s' % (type(a).__name__, type(b).__name__))
+    if isinstance(e, ast.UnaryOp):
+        v = eval_value(e.operand, env)
+        if isinstance(e.op, ast.Not):
+            return not v
+        if isinstance(e.op, ast.USub) and isinstance(v, int):
+            return -v
+        raise CannotEvaluate('unary')
+    if isinstance(e, ast.BoolOp):
+        r = None
+        for v in e.values:
+            r = eval_value(v, env)
+            if isinstance(e.op, ast.Or) and r:
+                return r
+            if isinstance(e.op, ast.And) and not r:
+                return r
+        return r
+    if isinstance(e, ast.IfExp):
+        return eval_value(e.body, env) if eval_value(e.test, env) else eval_value(e.orelse, env)
+    if isinstance(e, ast.Compare) and len(e.ops) == 1:
+        a, b = eval_value(e.left, env), eval_value(e.comparators[0], env)
+        op = e.ops[0]
+        table = {ast.Eq: lambda: a == b, ast.NotEq: lambda: a != b, ast.Lt: lambda: a < b, ast.LtE: lambda: a <= b,
+                 ast.Gt: lambda: a > b, ast.GtE: lambda: a >= b, ast.In: lambda: a in b, ast.NotIn: lambda: a not in b,
+                 ast.Is: lambda: a is b, ast.IsNot: lambda: a is not b}
+        try:
+            return table[type(op)]()
+        except TypeError:
+            raise CannotEvaluate('comparison')
+    if isinstance(e, ast.Subscript):
+        v = eval_value(e.value, env)
+        if not isinstance(v, (bytes, str, tuple, list)):
+            raise CannotEvaluate('subscript of %s' % type(v).__name__)
+        if isinstance(e.slice, ast.Slice):
+            lo = eval_value(e.slice.lower, env) if e.slice.lower is not None else None
+            hi = eval_value(e.slice.upper, env) if e.slice.upper is not None else None
+            st = eval_value(e.slice.step, env) if e.slice.step is not None else None
+            if any(x is not None and not isinstance(x, int) for x in (lo, hi, st)):
+                raise CannotEvaluate('slice bound')
+            return v[lo:hi:st]
+        i = eval_value(e.slice, env)
+        if not isinstance(i, int):
+            raise CannotEvaluate('index')
+        return v[i]
+    if isinstance(e, ast.Call):
+        fn = e.func
+        args = [eval_value(a, env) for a in e.args]
+        if e.keywords:
+            kw = {k.arg: eval_value(k.value, env) for k in e.keywords if k.arg}
+        else:
+            kw = {}
+        if isinstance(fn, ast.Attribute):
+            txt = ast.unparse(fn)
+            if txt in _IDENTITY_CALLS and len(args) == 1:
+                return args[0]
+            recv = eval_value(fn.value, env)
+            ok = (isinstance(recv, bytes) and fn.attr in _BYTES_METHODS) or (isinstance(recv, str) and fn.attr in _STR_METHODS)
+            if not ok:
+                raise CannotEvaluate('method %s of %s' % (fn.attr, type(recv).__name__))
+            return getattr(recv, fn.attr)(*args, **kw)
+        if isinstance(fn, ast.Name):
+            if fn.id in _IDENTITY_CALLS and len(args) == 1:
+                return args[0]
+            if fn.id in ('len', 'int', 'str', 'bytes', 'min', 'max', 'abs', 'bool', 'ord', 'chr') and not kw:
+                if fn.id == 'bytes' and args and isinstance(args[0], int):
+                    raise CannotEvaluate('bytes(n)')
+                return {'len': len, 'int': int, 'str': str, 'bytes': bytes, 'min': min, 'max': max, 'abs': abs, 'bool': bool,
+                        'ord': ord, 'chr': chr}[fn.id](*args)
+        raise CannotEvaluate('call %s' % ast.unparse(fn))
+    raise CannotEvaluate(type(e).__name__)
